@@ -35,3 +35,11 @@ func (s *Search) VerifClone() *Search {
 	c.gen = s.gen
 	return c
 }
+
+// VerifCopyStateTo makes the persistent state of dst equal to that of s
+// without allocating a new engine.
+func (s *Search) VerifCopyStateTo(dst *Search) {
+	dst.tt.VerifCopyFrom(s.tt)
+	dst.ranker.VerifCopyFrom(&s.ranker)
+	dst.gen = s.gen
+}
